@@ -360,3 +360,6 @@ if out.shape != (n,) or outc.shape != (n,) or not np.allclose(outc, 3.5, rtol=1e
 not_reproduced()
 """
     return None
+
+# level text addendum (cases added after the seeded-change rounds)
+LEVEL_TEXT = LEVEL_TEXT + ' Also: the default nanmean with symbolic NaN flags, a header dictionary, chunk sizes that are not a multiple of the bin, savgol on nearly regular abscissae to 1e-9.'
